@@ -395,8 +395,11 @@ package server
 // offset before the recorded start; for the latest epoch it is the log's newest offset
 //@ ghost var epochLookup int64
 //@ ghost var latestEpochOfLog uint64
-//@ func (*partition).handleLeaderOffsetRequest serves C02
+//@ func (*partition).handleLeaderOffsetRequest serves C02, C14
 //@   requires p != nil && msg != nil
+//@   assumes p.srv != nil && p.srv.logger != nil && p.log != nil
+//@   safety C14
+//@   call panic requires [C14:only-for-a-response-that-cannot-be-marshaled] err != nil
 //@   call LastOffsetForLeaderEpoch requires [requested-epoch] arg1 == req.LeaderEpoch
 //@   ghost after call LastOffsetForLeaderEpoch: ghost.epochLookup := ret0
 //@   ghost after call LastLeaderEpoch: ghost.latestEpochOfLog := ret0
@@ -492,6 +495,30 @@ package server
 //@   assumes [a-replicator-for-every-replica-but-this-server] forall r string :: (r in p.replicators) == ((r in p.replicas) && r != p.srv.config.Clustering.ServerID)
 //@   assumes forall r string :: (r in p.replicators) ==> p.replicators[r] != nil
 //@   safety
+
+// The remaining internal RPCs that are served on NATS subjects (C14: "internal RPC decoders on NATS handlers"): server
+// information, partition status, partition notification, leader epoch offset and metadata Raft join requests. Whatever
+// bytes arrive, the handler decodes them or drops them; a decoded request is used only through the message object the
+// decoder hands back (never nil), a partition that is looked up is used only if it was found, and the one way out by
+// panic is a response of the server's own making that cannot be marshaled.
+//@ func (*Server).handleServerInfoRequest serves C14
+//@   assumes s != nil && m != nil && s.logger != nil && s.config != nil
+//@   safety
+//@   call panic requires [only-for-a-response-that-cannot-be-marshaled] err != nil
+//@   call UnmarshalServerInfoRequest requires [the-payload-as-it-arrived] arg0 == m.Data
+//@ func (*Server).handlePartitionStatusRequest serves C14
+//@   assumes s != nil && m != nil && s.logger != nil && s.metadata != nil
+//@   safety
+//@   call panic requires [only-for-a-response-that-cannot-be-marshaled] err != nil
+//@   call IsLeader requires [only-a-partition-that-was-found-is-asked] arg0 != nil
+//@ func (*Server).handlePartitionNotification serves C14
+//@   assumes s != nil && m != nil && s.logger != nil && s.metadata != nil
+//@   safety
+//@   call Notify requires [only-a-partition-that-was-found-is-woken] arg0 != nil
+//@ func (*Server).newClusterJoinRequestHandler$1 serves C14
+//@   assumes s != nil && msg != nil && s.logger != nil && s.config != nil && node != nil
+//@   safety
+//@   call panic requires [only-for-a-response-that-cannot-be-marshaled] err != nil
 
 // ---------------------------------------------------------------------------------------------
 // One active group subscription per partition (property C13)
